@@ -468,6 +468,55 @@ def run_loading(tier, rng, viol, stats, samples):
                                     "tables": {str(xy): [[sorted(int(r) for r in e.route), e.key, e.mask] for e in t[:3]] for xy, t in tables.items()}}})
 
 
+def run_long_trees(tier, viol, stats):
+    """trees as long as a route through a big machine (a snake of ~1500 hops through 48x48 chips, a route with a 300-chip side
+    branch): one entry per chip, with the hop's own directions - whatever the depth of the tree"""
+    from rig.routing_table import routing_tree_to_tables, Routes
+    from rig.place_and_route.routing_tree import RoutingTree
+    for n_hops, branch_at in ((1500, None), (1100, 700), (40, 7)):
+        stats["ev"] += 1
+        stats["distinct"] += 1
+        # a snake: east along row 0, north one, west along row 1, ...
+        W = 48
+        chips = []
+        for i in range(n_hops + 1):
+            row, col = divmod(i, W)
+            chips.append((col if row % 2 == 0 else W - 1 - col, row))
+
+        def link(a, b):
+            d = (b[0] - a[0], b[1] - a[1])
+            return {(1, 0): Routes.east, (-1, 0): Routes.west, (0, 1): Routes.north}[d]
+        nodes = [RoutingTree(c) for c in chips]
+        for a, b in zip(range(n_hops), range(1, n_hops + 1)):
+            nodes[a].children.append((link(chips[a], chips[b]), nodes[b]))
+        nodes[-1].children.append((Routes.core(3), object()))
+        want = {}
+        for i, c in enumerate(chips):
+            outs = {link(c, chips[i + 1])} if i < n_hops else {Routes.core(3)}
+            ins = {None} if i == 0 else {Routes(link(chips[i - 1], c)).opposite}
+            want[c] = (outs, ins)
+        if branch_at is not None:
+            # a side branch going south-west is not possible on the snake's rows: hang a core leaf on the branch chip instead
+            nodes[branch_at].children.append((Routes.core(5), object()))
+            want[chips[branch_at]][0].add(Routes.core(5))
+        why = None
+        try:
+            tables = routing_tree_to_tables({"net": nodes[0]}, {"net": (0x1234, 0xffff)})
+            got = {c: [(set(e.route), set(e.sources), e.key, e.mask) for e in es] for c, es in tables.items()}
+            if set(got) != set(want):
+                why = "%d chips have entries, the tree visits %d" % (len(got), len(want))
+            else:
+                for c in chips:
+                    if got[c] != [(want[c][0], want[c][1], 0x1234, 0xffff)]:
+                        why = "chip %r: entries %r, expected route %r sources %r" % (c, got[c], sorted(want[c][0]), want[c][1])
+                        break
+        except BaseException as e:      # noqa (RecursionError is an Exception; a hang is caught by the driver)
+            why = "%s: %s" % (type(e).__name__, str(e)[:200])
+        if why and len(viol) < 6:
+            viol.append({"id": "long_tree_%d" % n_hops, "clause": "table_route", "why": "one net routed as a snake of %d hops through a 48-wide machine: %s" % (n_hops, why),
+                         "inputs": {"hops": n_hops, "extra_core_leaf_at_hop": branch_at}})
+
+
 def run(tier="quick", seed=0):
     t0 = _time.time()
     rng = random.Random(seed)
@@ -475,11 +524,12 @@ def run(tier="quick", seed=0):
     st_a = {"ev": 0, "distinct": 0, "skipped_disjoint": 0}
     st_b = {"ev": 0, "distinct": 0, "fail_paths": 0}
     run_trees(tier, rng, viol, st_a)
+    run_long_trees(tier, viol, st_a)
     run_loading(tier, rng, viol, st_b, samples)
     samples.append({"trees": "every tree with <= 5 nodes+leaves on the 3x3 mesh (%d)" % st_a["n_trees"]})
     return {"name": "c10_tables", "evaluations": st_a["ev"] + st_b["ev"],
             "distinct_nontrivial": st_a["distinct"] + st_b["distinct"],
-            "rule": "(a) routing_tree_to_tables vs an independent recursive walk (route = directions left by incl. leaf routes, sources = opposite of the "
+            "rule": "(a0) three long trees (snakes of 1500, 1100 and 40 hops through a 48-wide machine, the code under test under the interpreter's default recursion limit): one entry per chip with the hop's own directions. (a) routing_tree_to_tables vs an independent recursive walk (route = directions left by incl. leaf routes, sources = opposite of the "
                     "incoming hop or None at the root, MultisourceRouteError iff two trees with equal key+mask leave a common chip by different sets): "
                     "every tree of <= 5 units (a unit = a tree node or a leaf; leaves are a core route, a None route or a link route to a vertex; "
                     "children on distinct links, no chip revisited) on a 3x3 non-wrapping hex mesh = %d trees alone; every ORDERED pair with combined "
